@@ -495,8 +495,202 @@ pub fn motif_pos(sel: &[u8; 8], extras: &[(u8, u8, u8)], gold_to_move: bool, las
     PosSpec { board: b, gold_to_move, move_number: move_number_from(sel[6] ^ sel[7]), notation: if sel[1] % 2 == 0 { 0 } else { sel[1] ^ sel[5] } }
 }
 
+/// "Siege" motif: an enemy piece Z stands on a trap with one to three guards; stronger pieces of the mover
+/// stand next to the guards, so that within one turn guards can be pushed or pulled away (also across the
+/// line between two traps, also two of them one after the other) and Z falls, or does not. Few other
+/// pieces, so that the whole turn tree is small.
+pub fn siege_pos(sel: &[u8; 8], extras: &[(u8, u8, u8)], gold_to_move: bool) -> PosSpec {
+    let mover = gold_to_move;
+    let mut b = Board::empty();
+    let t = m::TRAPS[(sel[0] % 4) as usize];
+    let mut counts = [[0u8; 7]; 2];
+    let mut put = |b: &mut Board, sq: u8, gold: bool, mut k: u8, counts: &mut [[u8; 7]; 2]| -> bool {
+        if b.at(sq) != m::EMPTY {
+            return false;
+        }
+        // stay within the complement: fall back to weaker kinds, then to stronger ones
+        let mut tries = 0;
+        while counts[gold as usize][k as usize] >= m::COMPLEMENT[k as usize] && tries < 6 {
+            k = if k > 1 { k - 1 } else { 6 };
+            tries += 1;
+        }
+        if counts[gold as usize][k as usize] >= m::COMPLEMENT[k as usize] {
+            return false;
+        }
+        let goal_row = if gold { 0 } else { 7 };
+        if k == m::R && sq / 8 == goal_row {
+            return false;
+        }
+        b.0[sq as usize] = m::mk(gold, k);
+        counts[gold as usize][k as usize] += 1;
+        true
+    };
+    let kz = 1 + sel[1] % 6;
+    put(&mut b, t, !mover, kz, &mut counts);
+    let nbs: Vec<u8> = m::neighbours(t).collect();
+    let ng = 1 + (sel[2] % 3) as usize;
+    let first = (sel[3] % 4) as usize;
+    let mut guards: Vec<u8> = vec![];
+    for i in 0..ng {
+        let gq = nbs[(first + i * (1 + (sel[4] % 2) as usize)) % nbs.len()];
+        if guards.contains(&gq) {
+            continue;
+        }
+        let kg = 1 + (sel[5].rotate_left(i as u32 * 3) % 5); // R..M, so that something can be stronger
+        if put(&mut b, gq, !mover, kg, &mut counts) {
+            guards.push(gq);
+        }
+    }
+    // attackers: a stronger piece of the mover next to (most of) the guards, not on a trap, not next to Z's trap
+    // from the far side only
+    for (i, &gq) in guards.iter().enumerate() {
+        if (sel[6] >> i) & 1 == 1 && guards.len() > 1 {
+            continue; // this guard has no attacker of its own
+        }
+        let kg = m::kind(b.at(gq));
+        let cands: Vec<u8> = m::neighbours(gq).filter(|&q| q != t && b.at(q) == m::EMPTY && !m::is_trap(q)).collect();
+        if cands.is_empty() {
+            continue;
+        }
+        let aq = cands[(sel[7].rotate_left(i as u32 * 2) as usize) % cands.len()];
+        let ka = (kg + 1 + (sel[(i + 1) % 8] % (m::E - kg))).min(m::E);
+        put(&mut b, aq, mover, ka, &mut counts);
+    }
+    // a rabbit for each side away from the motif, then the extras
+    let near_motif = |b: &Board, sq: u8| m::is_trap(sq) || sq == t || m::neighbours(sq).any(|n| n == t || guards.contains(&n) || (b.at(n) != m::EMPTY && m::neighbours(n).any(|x| guards.contains(&x))));
+    for gold in [true, false] {
+        if counts[gold as usize][m::R as usize] == 0 {
+            for i in 0..64u8 {
+                let sq = (sel[if gold { 6 } else { 7 }].wrapping_add(i.wrapping_mul(13))) % 64;
+                if !near_motif(&b, sq) && put(&mut b, sq, gold, m::R, &mut counts) {
+                    break;
+                }
+            }
+        }
+    }
+    for &(sqsel, codesel, _) in extras.iter().take(5) {
+        let gold = codesel & 1 == 0;
+        let k = KIND_TABLE[((codesel >> 1) & 15) as usize];
+        for i in 0..64u8 {
+            let sq = (sqsel.wrapping_add(i.wrapping_mul(11))) % 64;
+            if !near_motif(&b, sq) && put(&mut b, sq, gold, k, &mut counts) {
+                break;
+            }
+        }
+    }
+    PosSpec { board: b, gold_to_move, move_number: move_number_from(sel[6] ^ sel[3]), notation: 0 }
+}
+
+/// "Open" positions: as many pieces of the mover as possible free to step (no two of them adjacent, none
+/// frozen) and enemy rabbits next to the mover's officers for pushes and pulls: positions near the
+/// maximum number of offered actions.
+pub fn open_pos(sel: &[u8; 8], picks: &[(u8, u8, u8)], gold_to_move: bool) -> PosSpec {
+    let mover = gold_to_move;
+    let mut b = Board::empty();
+    // the mover's pieces on squares of one colour of the checkerboard, so that no two are adjacent
+    let parity = (sel[0] % 2) as u8;
+    let mut squares: Vec<u8> = (0..64u8).filter(|&q| (q / 8 + q % 8) % 2 == parity && !m::is_trap(q)).collect();
+    // rabbits must not stand on their goal row; keep them off both edge rows to leave their steps free
+    let mut z = (sel[1] as u64).wrapping_mul(0x9e3779b97f4a7c15) ^ sel[2] as u64;
+    for i in (1..squares.len()).rev() {
+        z = crate::core::mix64(z);
+        squares.swap(i, (z % (i as u64 + 1)) as usize);
+    }
+    let n_mover = if sel[3] % 2 == 0 { 16 } else { 10 + (sel[3] % 7) as usize }; // 10..16
+    let kinds: [u8; 16] = [m::E, m::M, m::H, m::H, m::D, m::D, m::C, m::C, m::R, m::R, m::R, m::R, m::R, m::R, m::R, m::R];
+    let mut placed = 0;
+    for &sq in squares.iter() {
+        if placed >= n_mover {
+            break;
+        }
+        let k = kinds[placed];
+        let goal_row = if mover { 0 } else { 7 };
+        if k == m::R && sq / 8 == goal_row {
+            continue;
+        }
+        b.0[sq as usize] = m::mk(mover, k);
+        placed += 1;
+    }
+    // enemy rabbits (they freeze nothing and every officer can push or pull them) next to officers
+    let mut enemy_r = 0;
+    let want = 1 + (sel[4] % 8) as usize;
+    for &(sqsel, _, _) in picks.iter() {
+        if enemy_r >= want {
+            break;
+        }
+        for i in 0..64u8 {
+            let sq = (sqsel.wrapping_add(i.wrapping_mul(7))) % 64;
+            let goal_row = if !mover { 0 } else { 7 };
+            if b.at(sq) != m::EMPTY || m::is_trap(sq) || sq / 8 == goal_row {
+                continue;
+            }
+            let next_to_officer = m::neighbours(sq).any(|n| b.at(n) != m::EMPTY && m::is_gold(b.at(n)) == mover && m::kind(b.at(n)) > m::R);
+            if next_to_officer {
+                b.0[sq as usize] = m::mk(!mover, m::R);
+                enemy_r += 1;
+                break;
+            }
+        }
+    }
+    if enemy_r == 0 {
+        // the enemy needs a rabbit somewhere
+        for sq in 8..56u8 {
+            if b.at(sq) == m::EMPTY && !m::is_trap(sq) {
+                b.0[sq as usize] = m::mk(!mover, m::R);
+                break;
+            }
+        }
+    }
+    // local search towards more offered actions: relocate one piece at a time (deterministic in `sel`),
+    // keeping the position legal (nothing on a trap, no rabbit on a goal row)
+    let count = |b: &Board| crate::model::Model::from_position(*b, gold_to_move, 2).offered_norep().len();
+    let mut best = count(&b);
+    let mut z = crate::core::mix64(u64::from_le_bytes(*sel));
+    let rounds = 60 + (sel[6] as usize % 4) * 700; // some positions are left far from the maximum
+    for _ in 0..rounds {
+        z = crate::core::mix64(z);
+        let to = ((z >> 16) % 64) as u8;
+        if (z >> 40) % 8 == 0 && b.count(m::mk(!mover, m::R)) < 8 {
+            // one more enemy rabbit
+            if b.at(to) == m::EMPTY && !m::is_trap(to) && to / 8 != (if !mover { 0 } else { 7 }) {
+                let mut c = b;
+                c.0[to as usize] = m::mk(!mover, m::R);
+                let n = count(&c);
+                if n >= best {
+                    best = n;
+                    b = c;
+                }
+            }
+            continue;
+        }
+        let occupied: Vec<u8> = (0..64u8).filter(|&q| b.at(q) != m::EMPTY).collect();
+        let from = occupied[(z % occupied.len() as u64) as usize];
+        let code = b.at(from);
+        let goal_row = if m::is_gold(code) { 0 } else { 7 };
+        if b.at(to) != m::EMPTY || m::is_trap(to) || (m::kind(code) == m::R && to / 8 == goal_row) {
+            continue;
+        }
+        let mut c = b;
+        c.0[from as usize] = m::EMPTY;
+        c.0[to as usize] = code;
+        let n = count(&c);
+        if n >= best {
+            best = n;
+            b = c;
+        }
+    }
+    PosSpec { board: b, gold_to_move, move_number: move_number_from(sel[5]), notation: 0 }
+}
+
+pub fn open() -> impl Strategy<Value = PosSpec> {
+    (any::<[u8; 8]>(), prop::collection::vec(pick(), 8..=12), any::<bool>()).prop_map(|(sel, picks, g)| open_pos(&sel, &picks, g))
+}
+
 pub fn motif() -> impl Strategy<Value = PosSpec> {
-    (any::<[u8; 8]>(), prop::collection::vec(pick(), 0..6), any::<bool>(), 0u8..4).prop_map(|(sel, extras, g, l)| motif_pos(&sel, &extras, g, l == 0))
+    prop_oneof![
+        3 => (any::<[u8; 8]>(), prop::collection::vec(pick(), 0..6), any::<bool>(), 0u8..4).prop_map(|(sel, extras, g, l)| motif_pos(&sel, &extras, g, l == 0)),
+        2 => (any::<[u8; 8]>(), prop::collection::vec(pick(), 0..4), any::<bool>()).prop_map(|(sel, extras, g)| siege_pos(&sel, &extras, g)),
+    ]
 }
 
 fn pick() -> impl Strategy<Value = (u8, u8, u8)> {
@@ -561,6 +755,8 @@ pub struct GameParams {
     pub hanging: bool,
     /// weight of "false protection" motif starts (see motif_pos)
     pub w_motif: u32,
+    /// weight of "open" starts near the maximum number of offered actions (see open_pos)
+    pub w_open: u32,
 }
 
 pub fn game(p: GameParams) -> impl Strategy<Value = Case> {
@@ -574,6 +770,7 @@ pub fn game(p: GameParams) -> impl Strategy<Value = Case> {
         p.w_small => raw_pos_small().prop_map(|r| Start::Pos(build_pos(&r, PosMode::GameStart))),
         p.w_frozen => near_immobile().prop_map(Start::Pos),
         p.w_motif => motif().prop_map(Start::Pos),
+        p.w_open => open().prop_map(Start::Pos),
     ];
     (start, prop::collection::vec((any::<u16>(), any::<u8>()), 0..=p.max_ops), any::<u64>())
         .prop_map(|(start, ops, aux)| Case { start, ops, aux })
@@ -592,6 +789,9 @@ mod tests {
             let p = motif().new_tree(&mut runner).unwrap().current();
             assert!(p.board.within_complement(), "{:?}", crate::core::board_text(&p.board));
             assert!(p.board.traps_legal(), "{:?}", crate::core::board_text(&p.board));
+            let o = open().new_tree(&mut runner).unwrap().current();
+            assert!(o.board.within_complement() && o.board.traps_legal(), "{:?}", crate::core::board_text(&o.board));
+            assert!(o.board.has_rabbit(true) && o.board.has_rabbit(false) && !o.board.rabbit_on_goal(true) && !o.board.rabbit_on_goal(false), "{:?}", crate::core::board_text(&o.board));
             let q = near_immobile().new_tree(&mut runner).unwrap().current();
             assert!(q.board.within_complement(), "{:?}", crate::core::board_text(&q.board));
             assert!(q.board.traps_legal(), "{:?}", crate::core::board_text(&q.board));
@@ -616,5 +816,29 @@ mod tests {
             }
         }
         assert!(sizes.len() >= 6, "{:?}", sizes);
+    }
+}
+
+#[cfg(test)]
+mod open_stats {
+    use super::*;
+    use proptest::strategy::ValueTree;
+    use proptest::test_runner::{Config, RngSeed, TestRunner};
+    #[test]
+    #[ignore]
+    fn open_positions_action_counts() {
+        let mut runner = TestRunner::new(Config { rng_seed: RngSeed::Fixed(5), ..Config::default() });
+        let mut hist = std::collections::BTreeMap::new();
+        let mut best = (0, String::new());
+        for _ in 0..5000 {
+            let o = open().new_tree(&mut runner).unwrap().current();
+            let mo = crate::model::Model::from_position(o.board, o.gold_to_move, 2);
+            let n = mo.offered_norep().len();
+            *hist.entry(n / 8 * 8).or_insert(0) += 1;
+            if n > best.0 {
+                best = (n, crate::core::board_text(&o.board));
+            }
+        }
+        println!("{:?} best {:?}", hist, best);
     }
 }
